@@ -136,12 +136,21 @@ func startSlowUpload(addr string, r genReq) (*slowUpload, error) {
 
 func (s *slowUpload) finish(timeout time.Duration) httpResult {
 	t0 := time.Now()
+	br := bufio.NewReader(s.conn)
+	// A server may have answered already (a 408 for a slow upload, say) and closed: look before writing, because writing
+	// to a closed peer draws a reset that can destroy the unread response - which WAS sent.
+	s.conn.SetReadDeadline(time.Now().Add(30 * time.Millisecond))
+	_, perr := br.Peek(1)
 	s.conn.SetDeadline(time.Now().Add(timeout))
-	if _, err := s.conn.Write(s.rest); err != nil {
-		return httpResult{Err: "writing the rest of the body: " + err.Error(), Start: t0, End: time.Now()}
+	var werr error
+	if perr != nil {
+		_, werr = s.conn.Write(s.rest)
 	}
-	resp, err := http.ReadResponse(bufio.NewReader(s.conn), nil)
+	resp, err := http.ReadResponse(br, nil)
 	if err != nil {
+		if werr != nil {
+			return httpResult{Err: "writing the rest of the body: " + werr.Error(), Start: t0, End: time.Now()}
+		}
 		return httpResult{Err: "reading the response: " + err.Error(), Start: t0, End: time.Now()}
 	}
 	defer resp.Body.Close()
